@@ -380,4 +380,13 @@ Section Keys.
     | Fault => Fault
     | _ => Err                            (* "!= 1": an absent SEQUENCE is an error here *)
     end.
+  (* sm2_private_key_info_decrypt_from_der as an interface: the attributes of the decrypted
+     PrivateKeyInfo lie in the function's local plaintext buffer, which is cleared on return, so
+     the call reports none ( *attrs = NULL, *attrs_len = 0 ). *)
+  Definition sm2_p8_open_c (pass : list N) (inp : list N)
+    : res (list N * list N * option (list N) * list N) :=
+    match sm2_p8_open pass inp with
+    | Ok (d, pub, _, rest) => Ok (d, pub, None, rest)
+    | x => x
+    end.
 End Keys.
